@@ -68,7 +68,7 @@ chk("C14", "explicit-state BFS over the same mutation graph recording the librar
     "Payload bytes logged by Sign and Verify for every state of the depth-2 mutation graph over (step, pipeline env, repository URL, algorithm) incl. boundary shifts between adjacent fields, key/value, name/value, step-env vs pipeline-env: one byte string per canonical content class (must-collide), pairwise distinct across classes (must-differ), Sign payload == Verify payload, field list sorted, payload independent of earlier Sign calls sharing the env map; every order of Sign/Verify's map loops explored through the seam.",
     "Payload observed through WithDebugSigning; canonical form as C01.", "DESIGN.md §3 C14")
 chk("C02", "stateless choice-DFS over documents + string alphabet on signed positions + seam, full sign->marshal->re-parse->verify lifecycle on the real code",
-    "Generated documents (signed-field shorthands open, <=1/2 deviations), all key kinds with/without interpolation on the <=1-deviation slice, the C09 string alphabet at every signed string position: Parse -> [Interpolate] -> SignSteps -> JSON and YAML -> Parse / CommandStep.UnmarshalJSON -> Verify of every command step with the signed pipeline env and with the re-parsed one, + unrelated variables; sign+marshal under explored map iteration orders.",
+    "Generated documents (signed-field shorthands open with <=1 deviation elsewhere, plus everything within 2/3 deviations), all key kinds with/without interpolation on the <=1-deviation slice, the C09 string alphabet at every signed string position: Parse -> [Interpolate] -> SignSteps -> JSON and YAML -> Parse / CommandStep.UnmarshalJSON -> Verify of every command step with the signed pipeline env and with the re-parsed one, + unrelated variables; sign+marshal under explored map iteration orders.",
     "YAML-leg string exclusions as C09; cryptography black box.", "DESIGN.md §3 C02")
 
 chk("C19", "deep-snapshot state invariant over explored states + cooperative-scheduler exploration of all interleavings up to a preemption bound at instrumented points; free-running race-detector pass as supplement",
